@@ -8,6 +8,7 @@ import (
 	"fmt"
 	"os"
 	"strconv"
+	"time"
 
 	sentinel "github.com/alibaba/sentinel-golang/api"
 	"github.com/alibaba/sentinel-golang/core/base"
@@ -442,7 +443,7 @@ func main() {
 	gclk = clk
 	root := rng.New(a.Seed)
 	rep := emit.NewReport("C04", a.Seed, a.Tier)
-	rep.Rule = "sequential: 1-3 resources x 1-3 isolation rules, 8-47 Entry/Exit ops (batches 0,1,2,N,N+1,2^32-1,2^32-2; exits out of order, repeated, of blocked ops); concurrent: k=2-4 goroutines parked at the chain yield between rule check and statistics, random interleavings with releases. Non-trivial = the history contains at least one admission and one rejection (sequential) / at least two requests simultaneously inside the admission path (concurrent); distinct by full input."
+	rep.Rule = "sequential: 1-3 resources x 1-3 isolation rules, 8-47 Entry/Exit ops (batches 0,1,2,N,N+1,2^32-1,2^32-2; exits out of order, repeated, of blocked ops); concurrent: k=2-4 goroutines parked at the chain yield between rule check and statistics, random interleavings with releases. Non-trivial = the history contains at least one admission and one rejection (sequential) / at least two requests simultaneously inside the admission path (concurrent); distinct by full input. parallel (search only): 0-4 entries held open, 4-16 real goroutines entering/exiting the same resource in 10-30 bursts; at quiescence gauge = held entries, then sequential decisions with exactly that many in flight (batch N-held admitted, N-held single admissions, next rejected with snapshot N)."
 	nSeqCorr := a.Pick(a.N, 240, 4000)
 	nConcCorr := a.Pick(a.N, 80, 1500)
 	nSeqMon := a.Pick(a.Mon, 4000, 60000)
@@ -535,7 +536,9 @@ func main() {
 		}
 	}
 	if a.Only >= 0 {
-		if a.Only >= concBase {
+		if a.Only >= parBase {
+			parLeg(root, rep, 0, a.Only, 10*time.Second)
+		} else if a.Only >= concBase {
 			runOneConc(a.Only, false)
 		} else {
 			runOneSeq(a.Only, false)
@@ -551,6 +554,8 @@ func main() {
 	for j := 0; j < nConcMon; j++ {
 		runOneConc(concBase+j, j < nConcCorr)
 	}
+	// real-thread search leg (par.go): bounded by counts, at most 4 s (quick) / 60 s (thorough)
+	parLeg(root, rep, a.Pick(0, 8, 200), -1, time.Duration(a.Pick(0, 4, 60))*time.Second)
 	rep.DistinctNontrivial = dist.N()
 	rep.Consts["isolation.RuleCheckSlotOrder"] = isolation.RuleCheckSlotOrder
 	if sh != nil {
